@@ -85,6 +85,8 @@ type Result struct {
 	Log        []string
 	// Fatal is set when the harness itself is inconsistent (exit 2).
 	Fatal string
+	// shapeAcc accumulates what the world wants hashed into Shape.
+	shapeAcc string
 }
 
 func newResult() *Result {
